@@ -27,6 +27,8 @@ from . import c07 as _c07
 PROP = "C08"
 LEAN_MODULE = "NixModel.Props.C08"
 THEOREMS = [
+    "Nix.C08.C08_generated_decisions",
+    "Nix.C08.C08_source_shape",
     "Nix.C08.C08_units",
     "Nix.C08.C08_axis",
     "Nix.C08.C08_region_shape",
@@ -61,11 +63,13 @@ TRUSTED_EXTRA = ["models imported from C07 (Pure/Dim.lean + Generated/Tolerances
 
 
 def extract(repo):
-    """C08 depends on the tables of C07 (tolerances, end modes) and C09 (units): regenerate both"""
-    from ..extract import dims as _dims, units as _units
+    """C08 depends on the tables of C07 (tolerances, end modes) and C09 (units): regenerate both; its own translator
+    renders the decisions and the order of checks of tag.py / multi_tag.py (Generated/TagShape.lean)"""
+    from ..extract import dims as _dims, units as _units, tagshape as _tagshape
     files = {}
     files.update(_dims.extract(repo))
     files.update(_units.extract(repo))
+    files.update(_tagshape.extract(repo))
     return files
 
 fs, F, fl, is_double = _c07.fs, _c07.F, _c07.fl, _c07.is_double
@@ -1101,28 +1105,57 @@ def _fixed_cases():
 
 
 def oracle(ctx, broken, hints):
-    cases = [h for h in hints[:300] if isinstance(h, dict) and "k" in h]
-    cases += _fixed_cases()
-    cases += core.load_corpus(PROP)
+    """fixed order: disagreeing cases of the correspondence (hints), the fixed list, the corpus, then generated
+    scenarios.  With a broken obligation the generated stream is large but *bounded*: it stops at the deadline
+    (quick 90 s / thorough 600 s after the start of the oracle) or as soon as ENOUGH distinct failing inputs are known,
+    so that a concrete failure is reported early."""
+    import time
+    first = [h for h in hints[:300] if isinstance(h, dict) and "k" in h]
+    first += _fixed_cases()
+    first += core.load_corpus(PROP)
     n = 2500 if broken else ctx.budget(60, 600)
-    gen, _ = gen_cases(ctx, n, 3 if broken else ctx.budget(1, 3))
-    cases += gen
+    sweeps = 3 if broken else ctx.budget(1, 3)
+    deadline = time.time() + (ctx.budget(90, 600) if broken else 10 ** 6)
+    ENOUGH = 6
     impl = Impl(ctx, "oracle")
     failures, seen = [], set()
     notes = {}
+    evaluated = 0
+    stopped = "complete"
+
+    def run(c):
+        nonlocal evaluated
+        evaluated += 1
+        f, note = check_case(impl, c)
+        _bump(notes, note)
+        if f is not None:
+            key = (f.what, core.canon(f.input))
+            if key not in seen:
+                seen.add(key)
+                failures.append(f)
+
     try:
-        for c in cases:
-            f, note = check_case(impl, c)
-            _bump(notes, note)
-            if f is not None:
-                key = (f.what, core.canon(f.input))
-                if key not in seen:
-                    seen.add(key)
-                    failures.append(f)
+        for c in first:
+            run(c)
+        # generated stream, scenario by scenario (same rng consumption as one big batch)
+        todo = [("sweep", None)] + [("scen", None)] * n + [("sweep", None)] * (sweeps - 1) + \
+            [("mal", None)] * max(n // 25, 2)
+        for kind, _ in todo:
+            if broken and (len(failures) >= ENOUGH or time.time() > deadline):
+                stopped = "enough-failures" if len(failures) >= ENOUGH else "deadline"
+                break
+            if kind == "scen":
+                batch = gen_scenario(ctx.rng)
+            elif kind == "sweep":
+                batch = gen_prefix_sweep(ctx.rng)
+            else:
+                batch = gen_malformed(ctx.rng)
+            for c in batch:
+                run(c)
     finally:
         impl.close()
     failures.sort(key=lambda f: len(core.canon(f.input)))
-    return {"evaluations": len(cases), "failures": failures[:50], "verdicts": notes,
+    return {"evaluations": evaluated, "failures": failures[:50], "verdicts": notes, "stopped": stopped,
             "rule": "per axis, every sample index of the descriptor whose coordinate (exact Fractions of the stored "
                     "doubles) lies in the region scaled by the exact prefix ratio (this module's own SI table); valid "
                     "result required iff every axis has such samples and none beyond the stored extent, its window "
